@@ -68,7 +68,7 @@ func (P) Gen(rng *sim.Rng, tier string) *harness.Case {
 	n := rng.Range(6, 24)
 	for i := 0; i < n; i++ {
 		m := rng.Intn(rs.NumModules)
-		r := rs.RS{M: m, Res: rng.Intn(nRes), Idx: i}
+		r := rs.RS{M: m, Res: rng.Intn(nRes), Idx: i, Tw: rng.Intn(3)}
 		switch rng.Intn(10) {
 		case 0, 1, 2, 3:
 			r.Var = 0
